@@ -323,6 +323,7 @@ fn clean(s: String) -> String {
 pub async fn run_case(addr: std::net::SocketAddr, certs: &Certs, seed: u64, i: u64, out: &mut String) {
     let mut r = Rng::new(seed.wrapping_mul(6151).wrapping_add(i) ^ 0x11);
     let _ = writeln!(out, "case srv {} {}", seed, i);
+    crate::util::set_case_header(&format!("case srv {} {}", seed, i));
     let client = match connect_client(addr, certs, BackoffStrategy::constant().with_max_attempts(0)).await {
         Ok(c) => c,
         Err(e) => {
